@@ -4,6 +4,8 @@ import (
 	"bytes"
 	"encoding/json"
 	"fmt"
+	"html"
+	"net/url"
 	"os"
 	"os/exec"
 	"path/filepath"
@@ -417,7 +419,7 @@ func c02Find(c *Ctx, cs *C02Case, r *Rng, out *CaseOut, wantSig string) []c02Fai
 	return fails
 }
 
-var hexRun = regexp.MustCompile(`[0-9a-fx]+`)
+var hexRun = regexp.MustCompile(`[0-9a-fA-FxX]+`)
 
 // sameSkeleton: the two strings differ only inside runs of hex-ish characters.
 func sameSkeleton(a, b string) bool {
@@ -437,6 +439,12 @@ func nestedPtrFree(cs *C02Case) *C02Case {
 		if v.T == "struct" {
 			v.B = false
 		}
+		if v.R == "ptrs" { // a slice of pointers: its ELEMENTS are pointers below the top level
+			v.R = "typed"
+		}
+		if v.T == "drop" && len(v.A) == 1 {
+			stripPtr(v.A[0])
+		}
 	}
 	if mustJSON(c.Env) == before {
 		return nil
@@ -445,12 +453,17 @@ func nestedPtrFree(cs *C02Case) *C02Case {
 }
 
 // addressOnly decides whether a divergence between two result keys is the known
-// "pointer nested inside a fmt-printed composite" effect even though a filter
-// has mangled the printed address beyond recognition: the keys differ only inside
-// hex-ish runs AND the divergence vanishes when the nested pointers are replaced
-// by their pointees (same template, same execution settings).
+// "pointer nested inside a fmt-printed composite" effect even though later filters
+// have mangled the printed address beyond recognition (upcase -> 0XC000…, remove_first
+// cutting digits out, replace putting a word in): the two executions live in different
+// address spaces AND the divergence vanishes when the pointers below the top level of
+// the bindings are replaced by their pointees (same template, same execution settings,
+// same rebuild seeds -- so a dependence on map construction order, which the rebuilt
+// bindings also vary, would persist and is not excused).
 func addressOnly(cs *C02Case, cli string, a, b string, ex *C02Exec, child bool) bool {
-	if !sameSkeleton(a, b) {
+	// Only executions that live in a different address space than the canonical one
+	// can differ because of addresses: rebuilt bindings or another process.
+	if !child && (ex == nil || ex.Rebuild == 0) {
 		return false
 	}
 	c2 := nestedPtrFree(cs)
@@ -474,9 +487,15 @@ func addrClass(a, b Res) string {
 	if a.Out == b.Out {
 		where, s = "error", a.Err
 	}
-	loc := addrRe.FindStringIndex(s)
+	// undo what later filters commonly do to the printed value (upcase, url_encode, escape)
+	s = strings.ToLower(s)
+	if u, err := url.QueryUnescape(s); err == nil {
+		s = u
+	}
+	s = html.UnescapeString(s)
+	loc := looseAddr.FindStringIndex(s)
 	if loc == nil {
-		return where + "|pointer-inside-fmt-composite" // mangled by a later filter; established by addressOnly
+		return where + "|pointer-inside-fmt-composite" // mangled beyond recognition; established by addressOnly
 	}
 	depth := 0
 	for _, ch := range s[:loc[0]] {
@@ -494,6 +513,8 @@ func addrClass(a, b Res) string {
 	}
 	return where + "|bare-pointer"
 }
+
+var looseAddr = regexp.MustCompile(`0xc0[0-9a-f]{4,}`)
 
 func anyPrefix(m map[string]bool, p string) bool {
 	for k := range m {
